@@ -347,15 +347,17 @@ def parseCount (s : String) : Option (Option Nat) :=
 def spanOp (mem : List Int) (ext : Option Nat) (s : Span) (op : String) : Option (Option Nat × Span × String) :=
   let obs (e : Option Nat) (t : Span) : Option (Option Nat × Span × String) :=
     some (e, t, "ext=" ++ showExt e ++ " size=" ++ toString t.size ++ " elems=" ++ showList (t.elems mem))
+  -- the six member functions as regenerated from span.hh (`Span.applyG`; `span_gen_refines` relates them to `Span.apply`)
+  let g (op : SpanOpG) : Option (Option Nat × Span × String) := (s.applyG ext op).bind fun et => obs et.1 et.2
   match tokens op with
-  | ["first", c] => c.toNat?.bind fun c => (s.apply (.first c)).bind fun t => obs none t
-  | ["last", c] => c.toNat?.bind fun c => (s.apply (.last c)).bind fun t => obs none t
-  | ["sub", o, c] => o.toNat?.bind fun o => (parseCount c).bind fun c => (s.apply (.sub o c)).bind fun t => obs none t
-  | ["tfirst", c] => c.toNat?.bind fun c => if c > 4 then none else (s.apply (.first c)).bind fun t => obs (some c) t
-  | ["tlast", c] => c.toNat?.bind fun c => if c > 4 then none else (s.apply (.last c)).bind fun t => obs (some c) t
+  | ["first", c] => c.toNat?.bind fun c => g (.first c)
+  | ["last", c] => c.toNat?.bind fun c => g (.last c)
+  | ["sub", o, c] => o.toNat?.bind fun o => (parseCount c).bind fun c => g (.sub o c)
+  | ["tfirst", c] => c.toNat?.bind fun c => if c > 4 then none else g (.tfirst c)
+  | ["tlast", c] => c.toNat?.bind fun c => if c > 4 then none else g (.tlast c)
   | ["tsub", o, c] => o.toNat?.bind fun o => (parseCount c).bind fun c =>
       if o > 4 || (match c with | some c => decide (c > 4) | none => false) then none
-      else (s.apply (.sub o c)).bind fun t => obs (subspanExtent ext o c) t
+      else g (.tsub o c)
   | ["at", i] => i.toNat?.bind fun i =>
       some (ext, s, "at=" ++ (match s.at? mem i with | some v => toString v | none => "ERR:Range"))
   | ["fb"] =>
